@@ -529,3 +529,16 @@ def _clamp(I, a, lo, hi):
     return a
 for _t in list(INT_W):
     S[f"<{_t} as Ord>::clamp"] = _clamp
+
+
+# ------------------------------------------------------------------ char predicates backed by core's own Unicode tables: the set is
+# enumerated once from the compiled method by verif-native (as for pest's property functions)
+def _core_char(name):
+    def f(I, c):
+        c = I.deref(c) if type(unwrap_ptr(c)) is Ptr else c
+        I.W.user.setdefault("unicode_range_limit", 5000)
+        return I.unicode_property(name, c, via="core")
+    return f
+for _n in ("is_alphabetic", "is_lowercase", "is_uppercase", "is_numeric", "is_alphanumeric", "is_whitespace", "is_control"):
+    for _p in ("char::methods::<impl char>::", "core::char::methods::<impl char>::", "<impl char>::"):
+        S[_p + _n] = _core_char(_n)
